@@ -3,7 +3,7 @@
    Quantification: EVERY remote index map / interface map / container layout / payload values / policy (copy, add) /
    direction (fwd = true forward, false backward) / completion order of MPI_Waitany. *)
 From Coq Require Import List Arith Bool PeanoNat NArith Permutation Sorted.
-From DuneV Require Import C05_Model C05_Spec C05_Proofs C05_Proofs_Comm C05_Proofs_Deliv C05_Proofs_Glue C05_Proofs_Remote C05_Proofs_Phase C05_Proofs_Main.
+From DuneV Require Import C05_Model C05_Spec C05_Proofs C05_Proofs_Comm C05_Proofs_Deliv C05_Proofs_Glue C05_Proofs_Remote C05_Proofs_Phase C05_Proofs_Dt C05_Proofs_Main.
 Import ListNotations.
 
 (* Interface::build on ANY remote index map: no assert of InterfaceInformation::add fires; per neighbour exactly the local
@@ -207,6 +207,81 @@ Theorem C05_phase_ok : forall fwd P ifs gd sd szs szd,
     d' = c05_apply_calls add (sd q) log' /\ c05_shape d' = c05_shape (sd q).
 Proof. exact P_phase. Qed.
 Print Assumptions C05_phase_ok.
+
+(* ------------------------------------------------------------------ DatatypeCommunicator (MPI derived datatypes, no buffers)
+   A datatype = list of (block start = local index, block length) built from an interface list and the container's layout
+   (c05_dt_of); a send gathers through the typemap, a receive scatters through the typemap (c05_dt_pack / c05_dt_unpack).
+   c05_dt_run executes ANY schedule of the transfers, each reading its sender's container as it is at that moment. *)
+
+(* delivery under every interleaving: if, with one container per rank, no cell is both sent from and received into (the MPI rule
+   for concurrently active requests; with separate send containers nothing is required), every rank ends with its initial
+   container into which the transfers addressed to it were stored in schedule order, each carrying the INITIAL cells of its sender *)
+Theorem C05_datatype_delivery : forall same (sT rT : nat -> nat -> c05_dtype) (G R0 : nat -> c05_data),
+  (same = true -> c05_dt_nonoverlap sT rT) ->
+  forall sched r,
+  c05_dt_run same sT rT G sched R0 r =
+  c05_dt_recv (rT r) (fun p => c05_dt_pack (if same then R0 p else G p) (sT p r)) (c05_dt_senders sched r) (R0 r).
+Proof. exact P_dt_run. Qed.
+Print Assumptions C05_datatype_delivery.
+
+(* what a receive stores: with the datatypes of an interface, for every matched pair (k-th send entry of p for q, k-th receive
+   entry of q for p) each component of the source block goes to the same component of the target entry (forward and backward);
+   the container is the old one with these stores applied, and a cell no store addresses keeps its value *)
+Theorem C05_datatype_pairs : forall fwd (m : nat -> c05_imap) (gd sd : nat -> c05_data),
+  (forall p q, Forall2 (fun l l' => c05_getsize (gd p) l = c05_getsize (sd q) l') (c05_g_sendlist fwd m p q) (c05_g_recvlist fwd m q p)) ->
+  forall p q,
+  combine (c05_typemap (c05_dt_of (sd q) (c05_g_recvlist fwd m q p))) (c05_dt_pack (gd p) (c05_dt_of (gd p) (c05_g_sendlist fwd m p q))) =
+  flat_map (fun ll => c05_block_calls (snd ll) (nth (fst ll) (gd p) [])) (combine (c05_g_sendlist fwd m p q) (c05_g_recvlist fwd m q p)).
+Proof. exact P_dt_calls_pairs. Qed.
+Print Assumptions C05_datatype_pairs.
+
+Theorem C05_datatype_receive_is_stores : forall rT msgs order d,
+  c05_dt_recv rT msgs order d = c05_apply_calls false d (flat_map (fun p => combine (c05_typemap (rT p)) (msgs p)) order).
+Proof. exact dt_recv_apply. Qed.
+Print Assumptions C05_datatype_receive_is_stores.
+
+Theorem C05_untouched : forall add d cs l j, ~ In (l, j) (map fst cs) -> c05_get (c05_apply_calls add d cs) l j = c05_get d l j.
+Proof. exact P_untouched. Qed.
+Print Assumptions C05_untouched.
+
+(* equality with the BufferedCommunicator under the copying policy, per rank and for ANY order of the datatype receives: the
+   container equals the one the buffered receive loop produces when its (non-empty) receives complete in the same relative order.
+   (createDataTypes does not strip empty neighbours; looking a neighbour up in the stripped map gives the same lists.) *)
+Theorem C05_datatype_equals_buffered_copy : forall fwd ifs gd sd szs szd,
+  (forall p, NoDup (map fst (ifs p))) ->
+  (forall p e l, In e (ifs p) -> In l (c05_sendside fwd (snd e)) -> (if fwd then szs p else szd p) l = c05_getsize (gd p) l) ->
+  (forall p e l, In e (ifs p) -> In l (c05_recvside fwd (snd e)) -> (if fwd then szd p else szs p) l = c05_getsize (sd p) l) ->
+  (forall p q, Forall2 (fun l l' => c05_getsize (gd p) l = c05_getsize (sd q) l') (c05_g_sendlist fwd ifs p q) (c05_g_recvlist fwd ifs q p)) ->
+  forall q order,
+  let has_recv := fun p => existsb (Nat.eqb p) (map fst (c05_recvs fwd (c05_g_cm ifs szs szd q))) in
+  Permutation (filter has_recv order) (map fst (c05_recvs fwd (c05_g_cm ifs szs szd q))) ->
+  exists log,
+    c05_recv_loop false fwd (c05_g_cm ifs szs szd q) (fun p => c05_g_msg fwd ifs gd szs szd p q)
+                  (c05_recvs fwd (c05_g_cm ifs szs szd q)) (filter has_recv order) (sd q) [] =
+    C05_Ok (c05_dt_recv (fun p => c05_dt_of (sd q) (c05_g_recvlist fwd ifs q p))
+                        (fun p => c05_dt_pack (gd p) (c05_dt_of (gd p) (c05_g_sendlist fwd ifs p q))) order (sd q)) log.
+Proof. exact P_dt_equals_buffered. Qed.
+Print Assumptions C05_datatype_equals_buffered_copy.
+
+Theorem C05_strip_keeps_lists : forall q (mm : c05_imap), NoDup (map fst mm) -> c05_find_if q (c05_strip mm) = c05_find_if q mm.
+Proof. exact strip_find_if. Qed.
+Print Assumptions C05_strip_keeps_lists.
+
+(* ------------------------------------------------------------------ the two enumerations of the matched pairs
+   i^t enumerated over the REMOTE SOURCE set (what c05_spec_recv and the oracle use) equals the enumeration over the OWN TARGET
+   set (what Interface::build traverses, C05_interface_doc) for index sets sorted by pairwise distinct globals *)
+Theorem C05_spec_enumerations_agree : forall ign As At S T,
+  StronglySorted (fun a b => c05_ie_g a < c05_ie_g b) S -> StronglySorted (fun a b => c05_ie_g a < c05_ie_g b) T ->
+  c05_spec_pairs ign As At S T = c05_spec_pairs_t ign As At S T.
+Proof. exact P_pairs_agree. Qed.
+Print Assumptions C05_spec_enumerations_agree.
+
+(* hence the receive side of the model IS c05_spec_recv's list, for every decomposition with one entry per global index *)
+Theorem C05_interface_recv_is_spec : forall ign src dst S T, NoDup (map c05_ie_g S) -> NoDup (map c05_ie_g T) ->
+  map c05_re_l (c05_keep false src dst (c05_join (c05_published ign (c05_sort T)) (c05_published ign (c05_sort S)))) =
+  map (fun ee => c05_ie_l (snd ee)) (c05_spec_pairs ign (c05_contains src) (c05_contains dst) (c05_sort S) (c05_sort T)).
+Proof. exact PM_interface_recv_is_spec. Qed.
+Print Assumptions C05_interface_recv_is_spec.
 
 (* ------------------------------------------------------------------ repeated build() of one communicator object (F-C05-1)
    c05_comm_build_over old = build() as it is in the tree (std::map::insert into the messageInformation_ of a previous build);
